@@ -42,6 +42,7 @@ fn p1_alphabet(n: usize, tier: Tier) -> Vec<Dev> {
             ("named2", Kind::Named(vec![NamedField { name: "x".into(), ty: FieldTy::U8, default_with: false }, NamedField { name: "y".into(), ty: FieldTy::Bool, default_with: false }])),
             // field names that coincide with identifiers the generated code uses itself
             ("named{f}", Kind::Named(vec![NamedField { name: "f".into(), ty: FieldTy::U8, default_with: false }])),
+            ("named{fmt, formatter}", Kind::Named(vec![NamedField { name: "fmt".into(), ty: FieldTy::U8, default_with: false }, NamedField { name: "formatter".into(), ty: FieldTy::Bool, default_with: false }])),
             ("named{self_, field0}", Kind::Named(vec![NamedField { name: "self_".into(), ty: FieldTy::U8, default_with: false }, NamedField { name: "field0".into(), ty: FieldTy::Bool, default_with: false }])),
         ] {
             d.push(dev(format!("v{}.kind={}", i, kn), &[&format!("kind{}", i)], move |s| {
@@ -265,6 +266,7 @@ fn p2_programs(tier: Tier) -> Vec<Program> {
     );
     pack("tuple2 repeated indices", Kind::Tuple(vec![FieldTy::I32, FieldTy::SStr]), ["{0}{1}{0}", "{1}{0}{1}{0}", "{0}{0:>4}{1}"].iter().map(|s| s.to_string()).collect(), &mut out);
     pack("named{f}", Kind::Named(vec![NamedField { name: "f".into(), ty: FieldTy::U8, default_with: false }]), literals(&["f"], 2, false, true), &mut out);
+    pack("named{fmt}", Kind::Named(vec![NamedField { name: "fmt".into(), ty: FieldTy::U8, default_with: false }]), literals(&["fmt"], 2, false, false), &mut out);
     // a field declared with a raw identifier is named by the identifier it stands for (`{type}`), as in format!
     pack(
         "named{r#type, r#fn}",
